@@ -1,20 +1,24 @@
-(* C06 — Elliptical arcs end where they should and follow the requested ellipse.  PARTIAL.
-   Proved:
-   * over the reals, for the one polymorphic definition of the endpoint-to-centre conversion that the
-     float model runs (Arc.arc_center_gen): for positive radii and distinct end points, the two unit
-     vectors of step 4 have norm 1 — i.e. the start point (the pen) and the end point both lie on the
-     ellipse with the computed centre, the given rotation and the given radii, scaled up uniformly exactly
-     when they are too small — and rotating the primed offsets back recovers the pen and the end point;
-   * a relative arc's end point is the pen plus the offset (in viewBox space);
-   * a sweep of at most one turn needs at most four segments of pi/2 + 0.001;
+(* C06 — Elliptical arcs end where they should and follow the requested ellipse.
+   The arc code is written once over a record of numeric operations (Arc.arc_center_gen, angle_gen,
+   arc_angles_gen, arc_point_gen); its float64 instance is what AbsArcTo's model runs and what is compared
+   bit-for-bit with render.go (incl. ported math kernels) on ~7.5k arcs per run; these theorems are about its
+   instance over the reals, for positive radii and distinct end points:
+   * unit_vectors / start_point / end_point: the centre, the (uniformly scaled-up when too small) radii and the
+     rotation put the pen and the end point on the ellipse;
+   * angle_unit: the code's signed angle has the right cosine and sine and lies in [-pi, pi];
+   * arc_starts_and_ends: the ellipse point at the start angle is the pen and the point at start angle + sweep
+     is the arc's end point — so the first cubic starts at the pen and the last ends at the end point;
+   * point_on_ellipse: every segment end lies on that ellipse;
+   * sweep_sign_and_extent: the sweep is in [0, 2pi] when the sweep flag is set and in [-2pi, 0] otherwise;
+     four_segments: such a sweep needs at most four segments of pi/2 + 0.001;
+   * rel_endpoint: a relative arc's end point is the pen plus the offset;
    * on the float model: a zero / NaN radius gives exactly one LineTo to the mapped end point; otherwise the
-     arc is n CubeTo calls and nothing else, n the subdivision count; the relative form is the absolute
-     form at the converted end point.
-   Not proved: that each cubic's end point is the ellipse point at the subdivided angle (needs the
-   acos/sin/cos angle algebra of step 4 over R), the flag semantics of large-arc / sweep, and any bound on
-   float rounding.  Those are covered by the bit-exact correspondence on ~7.5k arcs per run. *)
+     arc is n CubeTo calls and nothing else; the relative form is the absolute form at the converted point.
+   PARTIAL — not proved: that the large-arc flag selects the sweep of magnitude > pi (the sign choice of the
+   centre), that the control points make each cubic a good approximation of its ellipse segment, and any bound
+   on float rounding. *)
 From Coq Require Import Reals ZArith Bool List.
-From IVG Require Import SF NumCodec Color Calls Render GoMath Arc GeomR ArcR RenderProofs ArcProofs.
+From IVG Require Import SF NumCodec Color Calls Render GoMath Arc GeomR ArcR ArcAngles RenderProofs ArcProofs.
 Import ListNotations.
 
 Theorem unit_vectors : forall x1 y1 x2 y2 Rx Ry co si : R, forall same : bool,
@@ -41,6 +45,37 @@ Theorem end_point : forall x1 y1 x2 y2 Rx Ry co si : R, forall same : bool,
   (ac_cy c + si * (- ac_x1p c - ac_cxp c) + co * (- ac_y1p c - ac_cyp c) = y2)%R.
 Proof. exact ArcR.end_point. Qed.
 Print Assumptions end_point.
+
+Theorem angle_unit : forall ux uy vx vy : R, (ux * ux + uy * uy = 1)%R -> (vx * vx + vy * vy = 1)%R ->
+  let th := angle_gen AR ux uy vx vy in
+  (cos th = ux * vx + uy * vy /\ sin th = ux * vy - uy * vx /\ - PI <= th <= PI)%R.
+Proof. exact ArcAngles.angle_unit. Qed.
+Print Assumptions angle_unit.
+
+Theorem arc_starts_and_ends : forall (x1 y1 x2 y2 Rx Ry co si : R) (same sweep : bool),
+  (0 < Rx)%R -> (0 < Ry)%R -> (co * co + si * si = 1)%R -> (x1 <> x2 \/ y1 <> y2) ->
+  let c := arc_center_gen AR x1 y1 x2 y2 Rx Ry co si same in
+  let th1 := fst (arc_angles_gen AR c sweep) in
+  let dth := snd (arc_angles_gen AR c sweep) in
+  arc_point_gen AR (ac_cx c) (ac_cy c) (ac_rx c) (ac_ry c) co si th1 = (x1, y1) /\
+  arc_point_gen AR (ac_cx c) (ac_cy c) (ac_rx c) (ac_ry c) co si (th1 + dth)%R = (x2, y2).
+Proof. exact ArcAngles.arc_starts_and_ends. Qed.
+Print Assumptions arc_starts_and_ends.
+
+Theorem point_on_ellipse : forall cx cy rx ry co si th : R, rx <> 0%R -> ry <> 0%R -> (co * co + si * si = 1)%R ->
+  let '(px, py) := arc_point_gen AR cx cy rx ry co si th in
+  let X := (co * (px - cx) + si * (py - cy))%R in
+  let Y := (- si * (px - cx) + co * (py - cy))%R in
+  ((X / rx) * (X / rx) + (Y / ry) * (Y / ry) = 1)%R.
+Proof. exact ArcAngles.point_on_ellipse. Qed.
+Print Assumptions point_on_ellipse.
+
+Theorem sweep_sign_and_extent : forall (x1 y1 x2 y2 Rx Ry co si : R) (same sweep : bool),
+  (0 < Rx)%R -> (0 < Ry)%R -> (co * co + si * si = 1)%R -> (x1 <> x2 \/ y1 <> y2) ->
+  let dth := snd (arc_angles_gen AR (arc_center_gen AR x1 y1 x2 y2 Rx Ry co si same) sweep) in
+  (sweep = true -> 0 <= dth <= 2 * PI)%R /\ (sweep = false -> - (2 * PI) <= dth <= 0)%R.
+Proof. exact ArcAngles.sweep_sign_and_extent. Qed.
+Print Assumptions sweep_sign_and_extent.
 
 Theorem rel_endpoint : forall (inj : f32 -> R) (s : rstate R) (x : R), r_scx s <> 0%R ->
   unabsX (NR inj) s (relVX (NR inj) s x) = (unabsX (NR inj) s (z_penx s) + x)%R.
